@@ -14,13 +14,13 @@ import tgen
 
 PROP = "C16"
 LEVEL = "proof"
-GEN_UNITS = []
-COQ_TARGETS = ["Props/C16.vo", "Props/C16Num.vo", "Model/C16Harness.vo", "Model/C16Lines.vo", "Model/Harness.vo"]
-THEOREM_FILES = ["Props/C16.v", "Props/C16Num.v"]
+GEN_UNITS = ["GenUtils3b"]     # Props/C16Gen.v: export_size over the generated pyttb_utils.parse_shape
+COQ_TARGETS = ["Props/C16.vo", "Props/C16Num.vo", "Props/C16Gen.vo", "Model/C16Harness.vo", "Model/C16Lines.vo", "Model/Harness.vo"]
+THEOREM_FILES = ["Props/C16.v", "Props/C16Num.v", "Props/C16Gen.v"]
 COQ_IMPORTS = ("From Coq Require Import String.\nFrom Coq Require Import List ZArith Bool.\n"
                "From PV Require Import Base.Index Np.Array Model.Sparse Model.Repr Model.Harness Model.C16IO Model.C16Big Model.C16Text Model.C16Harness.\n")
-RULE = ("objects of the four kinds (np.ndarray as 2-way matrix and as 1-/3-/4-way array) with seeded random shapes (orders 1-5, singleton "
-        "modes, 1-way, ZERO sizes; ranks 1-5, non-square factors; sparse: empty/one/some/full, stored orders sorted/reversed/random, "
+RULE = ("objects of the four kinds (np.ndarray as 2-way matrix and as 0-/1-/3-/4-way array) with seeded random shapes (orders 1-5, singleton "
+        "modes, 1-way, ZERO sizes, ORDER 0: ttb.tensor(), ttb.sptensor(), ttb.ktensor(), 0-d arrays; ranks 1-5, non-square factors; sparse: empty/one/some/full, stored orders sorted/reversed/random, "
         "index bases -3..10); values = finite doubles over the whole exponent range (uniform bit patterns, subnormals, +-max, "
         "+-min normal, powers of two +-1 ulp, 17-significant-digit-critical constants, +-0), carried as 64-bit patterns; "
         "MEMORY LAYOUTS AND HISTORIES: C-ordered / strided / negative-stride arrays assigned to T.data, K.factor_matrices[n], "
@@ -31,15 +31,19 @@ RULE = ("objects of the four kinds (np.ndarray as 2-way matrix and as 1-/3-/4-wa
         "mode (op sptensor_big, Z-subscript model); ELEMENT TYPES: dense data, sparse values, matrices / arrays and assigned Kruskal "
         "weights / factors of types int8..int64, uint8..uint64, bool, float16, float32 (values a double holds exactly, type extremes, "
         "+-2^53, 2^62; what must come back is the float64 object with the same numbers), sparse SUBSCRIPT arrays of every integer "
-        "type with modes as long as the type allows and subscripts up to the type's largest value (that value itself = finding "
-        "C16-N4); dense tensors GROWN by pyttb (assignment of an element / a block beyond the current sizes: the data array pyttb "
+        "type with modes as long as the type allows and subscripts up to the type's largest value AND that value itself "
+        "(repaired C16-N4); MATRICES in every memory layout: C, asfortranarray, strided, negative strides, slice of a 3-d array, "
+        "A.T of a C array, and the F-ordered arrays pyttb itself hands out (a factor matrix of a ktensor built by pyttb, "
+        "T.to_tenmat(...).double(), T.double(), a frontal slice of a 3-way T.double()), 3-way arrays handed out by tensor.double(), a "
+        "column of a stored factor matrix as 1-way array (the route is checked to hand out the intended array); dense tensors GROWN by pyttb (assignment of an element / a block beyond the current sizes: the data array pyttb "
         "allocates then is not F-contiguous); non-default fmt_data / fmt_weights for all kinds; malformed stream (import "
         "side): valid files from an independent pure-Python writer, mutated 33 ways (wrong type word, truncation, extra / missing "
         "tokens on header and entry lines, one-subscript entry, index_base too large / too small, out-of-range subscript, values "
         "re-flowed over lines, blank lines, word among values, float subscript, trailing junk, nnz / rank / column mismatches, "
-        "dropped or replaced 'matrix' line, negative size, zero size (with and without a matching body), empty file); WHITE SPACE "
+        "dropped or replaced 'matrix' line, negative size, zero size (with and without a matching body), empty file, files of "
+        "ORDER 0 of every kind with and without entries / rank / value / sizes that contradict the order line); WHITE SPACE "
         "(op wsfile, character-level model): valid files re-written with blanks before / after the tokens of a line, CR LF line "
-        "ends, runs of blanks between tokens on header / entry lines and among values, white-space-only lines, no final line "
+        "ends, LONE carriage returns (as padding, next to / instead of the separating blank, as the only line ends of the file), runs of blanks between tokens on header / entry lines and among values, white-space-only lines, no final line "
         "break, TAB / VT / FF as padding of a line, instead of / next to / between the blanks that separate texts on header, "
         "entry and value lines, and attached to the type word; rank-0 Kruskal tensors and files (incl. junk on the lines import "
         "drops, missing row lines, rank line 0 over a rank-R body); non-trivial = more than one value and not all values equal")
@@ -49,11 +53,11 @@ CORRESPONDENCE_ONLY = [
     "real files; everything else about non-default formats is proved (C16_roundtrip_any_format: what is read back is the object "
     "with every value replaced by parse(print_fmt v))",
     "classification of a white-space-free piece of a file as word / integer text / number text (what int(), np.int64() and "
-    "float() accept: regular expressions in the harness); lone-CR line ends are outside the character-level model (readline "
-    "takes a lone CR as a line end, but when np.fromfile is called right after such a line numpy cannot convert the text "
-    "file's tell() cookie, which then carries the newline decoder's pending-CR state, to a file offset: OverflowError on dense "
-    "and Kruskal files, sparse files are read); white space other than blank / tab / VT / FF / CR / LF (e.g. U+00A0, U+001C-1F) "
-    "is outside the model too",
+    "float() accept: regular expressions in the harness); white space other than blank / tab / VT / FF / CR / LF (e.g. U+00A0, "
+    "U+001C-1F) is outside the character-level model (carriage returns, lone ones included, are inside since /repo a0b5a3f)",
+    "export_data / import_data themselves are a HAND transliteration (Model/C16IO.v, C16Lines.v, C16Text.v), tied to the source by "
+    "the correspondence stream on real files; the translator covers pyttb_utils.parse_shape as called by export_size "
+    "(C16_export_size_generated over Gen/GenUtils3b.v), not the bodies of export_data / import_data",
 ]
 ASSUMPTIONS = [
     "parse (print v) = v for every finite double v, where print is numpy tofile with format '%.16e' (libc printf: 1 + 16 = 17 "
@@ -74,7 +78,7 @@ ASSUMPTIONS = [
     "sparse tensors with modes too long for unary numbers are checked against the Z-subscript model (Model/C16Big.v), proved "
     "equal to the nat object model through Z.of_nat on every token stream (C16_long_import_bridge / C16_long_export_bridge)",
 ]
-_STATS = {"doubles": 0, "files": 0, "text_mismatch": 0, "badfiles": 0, "badfiles_accepted": 0, "cr_overflow": 0}
+_STATS = {"doubles": 0, "files": 0, "text_mismatch": 0, "badfiles": 0, "badfiles_accepted": 0}
 EXPLANATION = ""
 
 
@@ -86,9 +90,7 @@ def _explain():
                    "each real file is compared token by token, line by line, with the model's export in Coq; the "
                    "model's import (token-level and line-sensitive) is run on the tokens of the real file and compared with "
                    f"pyttb's import_data result. Malformed stream: {_STATS['badfiles']} mutated files, of which pyttb accepted "
-                   f"{_STATS['badfiles_accepted']}; the line-sensitive model gave pyttb's verdict (and object) on each. "
-                   f"{_STATS['cr_overflow']} white-space files with CR LF line ends were left out because pyttb raised "
-                   "OverflowError on them (finding C16-N3: np.fromfile cannot use the text file's tell() cookie).")
+                   f"{_STATS['badfiles_accepted']}; the line-sensitive model gave pyttb's verdict (and object) on each.")
 
 
 _explain()
@@ -204,8 +206,7 @@ def gen_cases(rng, tier):
     for _ in range(200 if big else 45):
         m, n = rng.randint(1, 9 if big else 6), rng.randint(1, 9 if big else 6)
         rows = [rand_vals(rng, n) for _ in range(m)]
-        cases.append(Case("matrix", {"m": m, "n": n, "rows": rows, "layout": rng.choice(["C", "F", "strided", "transposed_view"])},
-                          m * n > 1))
+        cases.append(Case("matrix", {"m": m, "n": n, "rows": rows, "layout": rng.choice(M_LAYOUTS)}, m * n > 1))
     # np.ndarray that is not 2-way (vector, 3-way, 4-way): shape and C-order listing
     for _ in range(90 if big else 20):
         shp = tgen.rand_shape(rng, maxn=4, maxcells=(200 if big else 48), maxdim=6)
@@ -251,6 +252,29 @@ def gen_cases(rng, tier):
         R = rng.randint(1, 3)
         cases.append(Case("ktensor", {"shape": list(shp), "weights": rand_vals(rng, R),
                                       "factors": [[rand_vals(rng, R) for _ in range(d)] for d in shp]}, True))
+    # ORDER 0 (finding C16-N2, repaired in /repo b512e35): the objects without modes pyttb can hold — ttb.tensor(), ttb.sptensor(),
+    # ttb.ktensor() (no entry / stored entry / weight) and 0-d arrays (one entry) — are ordinary inputs; every index base, every
+    # element type and layout a 0-d array can have
+    cases.append(Case("tensor", {"shape": [], "bits": []}, False))
+    for b in (1, 0, 2, -3):
+        cases.append(Case("sptensor", {"shape": [], "subs": [], "bits": [], "base": b}, False))
+    cases.append(Case("ktensor", {"shape": [], "weights": [], "factors": []}, False))
+    for k in range(12 if big else 5):
+        cases.append(Case("ndarray", {"shape": [], "cbits": rand_vals(rng, 1), "layout": rng.choice(["C", "F", "view0"])}, False))
+    for dt in ("int8", "uint64", "float32", "bool"):
+        cases.append(Case("ndarray", {"shape": [], "cbits": _dtype_vals(rng, dt, 1), "layout": "C", "dtype": dt}, False))
+    for fd in ("%.3e", "%.17e"):
+        cases.append(Case("ndarray", {"shape": [], "cbits": [f2b(1234.56789)], "layout": "C", "fmt_data": fd, "fmt_weights": None}, False))
+    cases.append(Case("tensor", {"shape": [], "bits": [], "fmt_data": "%.3e", "fmt_weights": None}, False))
+    cases.append(Case("ktensor", {"shape": [], "weights": [], "factors": [], "fmt_data": "%.3e", "fmt_weights": "%.2e"}, False))
+    # regression inputs of repaired findings (ordinary cases now): C16-N4 uint8 subscript 255; C19-N14 1-based file read with
+    # index_base 2; C16-N3 the CR LF file of a rank-0 Kruskal tensor
+    cases.append(Case("sptensor_big", {"shape": [256, 3], "subs": [[0, 1], [255, 2]], "bits": [f2b(1.5), f2b(2.5)], "base": 1,
+                                       "subs_dtype": "uint8"}, True))
+    cases.append(Case("badfile", {"lines": [["sptensor"], ["2"], ["2", "3"], ["1"], ["1", "2", "5.0"]], "base": 2,
+                                  "mutation": "base_mismatch_low", "kind": "sptensor"}, True))
+    cases.append(Case("wsfile", {"text": "ktensor\r\n2\r\n1 2\r\n0\r\n\r\nmatrix\r\n2\r\n1 0\r\n\r\nmatrix\r\n2\r\n2 0\r\n\r\n\r\n",
+                                 "base": 1, "ws": "crlf", "kind": "ktensor"}, True))
     cases += gen_badfiles(rng, big)
     cases += gen_wsfiles(rng, big)
     for k, vc in enumerate(volume):
@@ -259,6 +283,8 @@ def gen_cases(rng, tier):
 
 
 # ---------------------------------------------------------------- memory layouts, multi-step histories, stored zeros
+M_LAYOUTS = ["C", "F", "strided", "transposed_view", "negstride", "slice3d", "T_of_C", "kfactor", "tenmat_double", "tensor_double",
+             "double_slice", "kfactor_nocopy"]
 T_HIST = ["ctor_C", "ctor_nocopy", "assign_C", "assign_strided", "assign_negstride", "permute_back", "grown_elem", "grown_block"]
 K_HIST = ["assign_C", "assign_C_some", "assign_strided", "normalize_all", "normalize_k", "normalize_sort", "redistribute",
           "weights_strided", "ctor_nocopy", "arrange"]
@@ -381,12 +407,21 @@ def gen_history_cases(rng, big):
         if len(shp) == 2:
             shp = shp + [rng.randint(2, 3)]
         cbits = rand_vals(rng, math.prod(shp))
-        out.append(Case("ndarray", {"shape": shp, "cbits": cbits, "layout": ["strided", "transposed_view", "negstride", "F"][k % 4]},
+        out.append(Case("ndarray", {"shape": shp, "cbits": cbits,
+                                    "layout": ["strided", "transposed_view", "negstride", "F", "tensor_double", "tensor_double_nocopy"][k % 6]},
                         len(set(cbits)) > 1))
-    for k in range(24 if big else 8):
+    # 1-way arrays pyttb hands out: a column of a stored factor matrix (a strided view of F-ordered data)
+    for k in range(12 if big else 4):
+        n = rng.randint(2, 6)
+        cbits = rand_vals(rng, n)
+        out.append(Case("ndarray", {"shape": [n], "cbits": cbits, "layout": "factor_column"}, len(set(cbits)) > 1))
+    # matrices with at least two rows and two columns (the layouts differ) in EVERY memory layout, those of the arrays pyttb
+    # itself hands out included (pyttb stores F-ordered data: a factor matrix of a ktensor, a tenmat's / tensor's double(),
+    # a frontal slice of a 3-way tensor's double())
+    for k in range(3 * len(M_LAYOUTS) if big else len(M_LAYOUTS)):
         m, n = rng.randint(2, 5), rng.randint(2, 5)
         rows = [rand_vals(rng, n) for _ in range(m)]
-        out.append(Case("matrix", {"m": m, "n": n, "rows": rows, "layout": ["negstride", "slice3d", "F", "transposed_view"][k % 4]}, True))
+        out.append(Case("matrix", {"m": m, "n": n, "rows": rows, "layout": M_LAYOUTS[k % len(M_LAYOUTS)]}, True))
     return out
 
 
@@ -537,7 +572,7 @@ MUTATIONS = ["none", "type_word", "truncate", "header_extra", "sizes_extra", "si
              "reflow_split", "blank_line", "word_value", "float_subscript", "trailing_junk", "nnz_more", "nnz_less", "nnz_negative",
              "drop_matrix_line", "matrix_line_other", "weights_extra", "rank_mismatch", "factor_cols", "factor_1d", "neg_size",
              "empty_file", "first_line_number", "zero_size", "zero_size_consistent", "rank0_weights_junk", "rank0_rows_junk",
-             "rank0_row_missing", "rank0_in_rank_file", "rank_line_zero"]
+             "rank0_row_missing", "rank0_in_rank_file", "rank_line_zero", "order0", "order0", "order0_factor"]
 
 
 def gen_badfiles(rng, big):
@@ -672,6 +707,24 @@ def gen_badfiles(rng, big):
                         rows = rows[:-1]
                     L += [["matrix"], ["2"], [str(d), "0"]] + rows
                 kind = "ktensor"
+        elif mut == "order0":
+            # files of objects WITHOUT modes (order line 0, empty sizes line: /repo b512e35) and their neighbours: entries / rank /
+            # values announced or present, the value of a 0-d array missing, sizes that contradict the order line
+            v = lambda: [_fv(rng)]
+            kind = rng.choice(["tensor", "sptensor", "ktensor", "matrix"])
+            body = {"tensor": [[[]], [], [v()], [v(), v()], [["x"]]],
+                    "sptensor": [[["0"]], [["0"], v()], [["1"], v()], [["1"], ["1"] + v()], [["2"], v(), v()], [["1"]], [], [["-1"]], [["0", "junk"]]],
+                    "ktensor": [[["0"], []], [["0"]], [["0"], ["junk", "1"]], [["0"], [], ["matrix"], ["2"], ["1", "0"], []], [["1"], v()],
+                                [["2"], v() + v()], [["1"], []], [["1"], ["matrix"]], []],
+                    "matrix": [[v()], [[]], [], [v() + v()], [v(), v()], [[], v()], [["x"]], [["3"]]]}[kind]
+            head = rng.choice([[["0"], []]] * 6 + [[["0"], ["1"]], [["1"], []], [["0", "x"], []], [["0"]], [[], []], [["0"], ["0"]]])
+            L = [[kind]] + [list(l) for l in head] + [list(l) for l in rng.choice(body)]
+        elif mut == "order0_factor":
+            # a Kruskal file one of whose FACTOR headers has order 0 (np.prod(()) = 1 value is read, a 0-d "factor")
+            if kind != "ktensor" or not info["mlines"]:
+                continue
+            j = rng.choice(info["mlines"])
+            L[j + 1], L[j + 2] = ["0"], []
         elif mut == "empty_file":
             L = []
         elif mut == "first_line_number":
@@ -683,8 +736,9 @@ def gen_badfiles(rng, big):
 # ---------------------------------------------------------------- white space (character-level model, Model/C16Text.v)
 WS_KINDS = ["styled", "styled", "crlf", "double_blank", "double_blank_values", "ws_only_line", "no_final_newline", "blank_lines_end",
             "trailing_only", "leading_only", "tab_pad", "tab_glue", "tab_glue_values", "tab_attached", "tab_only_piece", "tab_typeword",
-            "tab_mixed"]
-OWS = ["\t", "\t", "\x0b", "\x0c"]        # tab, VT, FF: the atom AOws of Model/C16Text.v
+            "tab_mixed", "tab_mixed", "lone_cr_eol", "cr_some_eol", "cr_before_eol"]
+# tab, VT, FF (the atom AOws of Model/C16Text.v) and CR (ACR, read in the same way since import_data opens with newline="\n")
+OWS = ["\t", "\t", "\x0b", "\x0c", "\r", "\r"]
 
 
 def gen_wsfiles(rng, big):
@@ -738,11 +792,18 @@ def gen_wsfiles(rng, big):
                 seps[0][0] = rng.choice([o + " ", " " + o, o, " " + o + " "])
         pad = lambda n: "".join(rng.choice([" "] + OWS) for _ in range(n))
         text = ""
+        cr_line = rng.randrange(len(L))
         for j, ln in enumerate(L):
             lead = rng.choice([0, 0, 1, 3]) if ws in ("styled", "leading_only") else 0
             trail = rng.choice([0, 0, 1, 2]) if ws in ("styled", "trailing_only", "crlf") else 0
             body = "".join(t + (seps[j][i] if i < len(seps[j]) else "") for i, t in enumerate(ln))
             eol = "\r\n" if crlf_all or (ws == "styled" and rng.random() < 0.2) else "\n"
+            if ws == "lone_cr_eol":                 # old Mac line ends: the whole file is ONE line for readline()
+                eol = "\r"
+            elif ws == "cr_some_eol" and (j == cr_line or rng.random() < 0.15):
+                eol = "\r"                          # a lone CR where a line should end: the two lines are one
+            elif ws == "cr_before_eol":
+                eol = "\r" * rng.randint(1, 3) + rng.choice(["\n", " \n", "\r\n"])
             if ws in ("tab_pad", "tab_typeword", "tab_mixed"):
                 text += pad(rng.choice([0, 1, 2])) + body + pad(rng.choice([0, 0, 1, 2])) + (rng.choice(["\n", "\r\n"]) if ws == "tab_pad" else "\n")
                 continue
@@ -901,6 +962,25 @@ def run_impl(c):
                 A3 = np.zeros((m, 3, n), order=("F" if m % 2 else "C"), dtype=M.dtype)
                 A3[:, 1, :] = M
                 M = A3[:, 1, :]
+            elif a["layout"] == "T_of_C":
+                M = np.array(M.T.tolist(), dtype=M.dtype).T          # A.T of a C-ordered literal
+            elif a["layout"] in ("kfactor", "kfactor_nocopy"):
+                # a factor matrix of a Kruskal tensor as pyttb stores it (the constructor keeps F-ordered copies)
+                other = np.ones((2, n))
+                K = (ttb.ktensor([np.asfortranarray(M.astype(float)), np.asfortranarray(other)], np.ones(n), copy=False)
+                     if a["layout"] == "kfactor_nocopy" else ttb.ktensor([M.astype(float), other], np.ones(n)))
+                M = K.factor_matrices[0]
+            elif a["layout"] == "tenmat_double":
+                M = ttb.tensor(M.astype(float)).to_tenmat(np.array([0])).double()     # the unfolding of a 2-way tensor
+            elif a["layout"] == "tensor_double":
+                M = ttb.tensor(M.astype(float)).double()
+            elif a["layout"] == "double_slice":
+                A3 = np.zeros((m, n, 2))
+                A3[:, :, 1] = M
+                M = ttb.tensor(A3).double()[:, :, 1]                 # a frontal slice of a 3-way tensor's array
+            if M.shape != (m, n) or M.dtype != np.dtype(a.get("dtype") or "float64") or \
+                    any(f2b(float(M[i, j])) != a["rows"][i][j] for i in range(m) for j in range(n)):
+                return {"skip": "the layout route did not hand out the matrix (shape / element type / entries)"}
             obj = M
             nd = m * n
         elif c.op == "ndarray":
@@ -909,6 +989,8 @@ def run_impl(c):
                 M = M.astype(a["dtype"])
             obj = _relayout(np, M, a["layout"])
             nd = len(a["cbits"])
+            if obj.shape != M.shape or obj.dtype != M.dtype or [f2b(float(x)) for x in obj.flat] != [f2b(float(x)) for x in M.flat]:
+                return {"skip": "the layout route did not hand out the array (shape / element type / entries)"}
         else:
             raise ValueError(c.op)
         if a.get("dtype") and _dtype_lost(np, ttb, obj, a):
@@ -961,8 +1043,21 @@ def run_impl(c):
 
 def _relayout(np, M, layout):
     """the same logical array in another memory layout"""
+    if M.ndim == 0:
+        if layout == "view0":
+            return np.array([0.0, float(M), 0.0])[1:2].reshape(())      # a 0-d VIEW into a longer buffer
+        return M
     if layout == "F":
         return np.asfortranarray(M)
+    if layout in ("tensor_double", "tensor_double_nocopy"):
+        # the array a dense tensor built by pyttb hands out (F-ordered)
+        import pyttb as ttb
+        return (ttb.tensor(np.asfortranarray(M), copy=False) if layout == "tensor_double_nocopy" else ttb.tensor(M)).double()
+    if layout == "factor_column":
+        import pyttb as ttb
+        F = np.zeros((M.shape[0], 3))
+        F[:, 1] = M
+        return ttb.ktensor([F, np.ones((2, 3))], np.ones(3)).factor_matrices[0][:, 1]
     if layout == "strided":
         big = np.zeros([2 * d + 1 for d in M.shape], order="F", dtype=M.dtype)
         view = big[tuple(slice(1, None, 2) for _ in M.shape)]
@@ -978,6 +1073,8 @@ def _relayout(np, M, layout):
 
 def _build_tensor(np, ttb, a):
     shape = tuple(a["shape"])
+    if not shape:
+        return ttb.tensor()            # the only dense tensor without modes (no entry)
     X = _arr(np, a["bits"], shape, "F")
     h = a.get("hist")
     if not h:
@@ -1039,6 +1136,8 @@ def _build_sptensor(np, ttb, a):
 
 def _build_ktensor(np, ttb, a):
     R = len(a["weights"])
+    if not a["factors"]:
+        return ttb.ktensor()           # the only Kruskal tensor without modes (no weight, no factor)
     facs = [_arr(np, [b for row in f for b in row], (len(f), R)).copy() for f in a["factors"]]
     w = _arr(np, a["weights"]).copy()
     h = a.get("hist")
@@ -1165,6 +1264,8 @@ def _rounded_args(c):
         a["factors"] = [[[_rnd(fd, b) for b in row] for row in f] for f in a["factors"]]
     elif c.op == "matrix":
         a["rows"] = [[_rnd(fd, b) for b in row] for row in a["rows"]]
+    elif c.op == "ndarray":
+        a["cbits"] = [_rnd(fd, b) for b in a["cbits"]]
     return Case(c.op, a, c.nontrivial)
 
 
@@ -1200,8 +1301,8 @@ def gobj_out(o):
     if any(x < 0 for x in (o.get("shape") or []) + (o.get("mshape") or [])):
         return None
     if t == "tensor":
-        if isinstance(o["bits"], dict) or o["data_shape"] != o["shape"]:
-            return None
+        if isinstance(o["bits"], dict) or o["data_shape"] != (o["shape"] or [0]):
+            return None                  # (the tensor without modes keeps the 1-d array of length 0)
         return f"(OTensor (mkDense {gnlist(o['shape'])} {gzl(o['bits'])}))"
     if t == "sptensor":
         if isinstance(o["bits"], dict) or o["nnz"] != len(o["subs"]) or any(x < 0 for r in o["subs"] for x in r):
@@ -1225,14 +1326,6 @@ def gobj_out(o):
 def coq_check(c, o):
     if c.op == "wsfile":
         b = gz(c.args["base"])
-        if o.get("exc") == "OverflowError" and "\r" in c.args["text"] and "int too big to convert" in o.get("msg", ""):
-            # finding C16-N3: CPython's TextIOWrapper.tell() returned a cookie that carries newline-decoder state (a CR seen,
-            # its LF not yet), which np.fromfile cannot turn into a file offset; whether this happens depends on the
-            # bytes-per-character ratio of the text layer's current chunk (observed only on CR LF files of rank-0 Kruskal
-            # tensors) — not a verdict of import_data's own logic: outside the character-level model, case left out
-            _STATS["cr_overflow"] += 1
-            _explain()
-            return None
         if "exc" in o:
             return f"c16_text_ok {b} {gatoms(o['atoms'])} None"
         got = gobj_out(o)
@@ -1331,117 +1424,8 @@ def oracle(c, o):
 
 
 # ---------------------------------------------------------------- known findings
-def _neg_sub(c):
-    """a sparse file one of whose subscripts lies below the index base it is read with"""
-    if c.op != "badfile":
-        return False
-    L = c.args["lines"]
-    if len(L) < 5 or L[0][:1] != ["sptensor"]:
-        return False
-    for ln in L[4:]:
-        for t in ln[:-1]:
-            if _INT.match(t) and int(t) - c.args["base"] < 0:
-                return True
-    return False
-
-
-def _subs_at_max(c):
-    dt = c.args.get("subs_dtype")
-    if c.op != "sptensor_big" or dt not in INT_RANGE:
-        return False
-    return any(x == INT_RANGE[dt][1] for r in c.args["subs"] for x in r)
-
-
-TRIGGERS = {
-    # C19-N14 (open, owned by C19): sptensor.__init__ checks only the upper bound, so import_data with a too large
-    # index_base returns a sparse tensor with NEGATIVE subscripts instead of rejecting the file; the model rejects
-    "negative_subscript_after_base": _neg_sub,
-    # C16-N2: objects of order 0 (default-constructed empty tensor / sptensor / ktensor, 0-d array); no case is generated
-    # (the object model starts at order 1), the witness replays it
-    "order_zero": lambda c: c.op in ("tensor", "sptensor", "ktensor", "ndarray") and c.args.get("shape") == [],
-    # C16-N4: export_sparse_array computes `A.subs[i, :] + 1` in the element type of the subscript array: a stored subscript
-    # equal to the largest value of that type wraps (uint8 255 -> 0, int8 127 -> -128, ...). Exactly: the subscript array
-    # has an integer type narrower than the file's int64 texts need AND some stored subscript equals that type's maximum
-    "subs_at_dtype_max": _subs_at_max,
-}
-
-
-def _w_negsub():
-    import numpy as np
-    import pyttb as ttb
-    d = tempfile.mkdtemp(prefix="c16_")
-    try:
-        path = os.path.join(d, "w.tns")
-        with open(path, "w") as fh:
-            fh.write("sptensor\n2\n2 3\n1\n1 2 5.0\n")
-        try:
-            S = ttb.import_data(path, index_base=2)
-        except Exception:
-            return None
-        return f"a 1-based file read with index_base=2 is accepted with subscripts {S.subs.tolist()}"
-    finally:
-        shutil.rmtree(d, ignore_errors=True)
-
-
-def _w_crlf_rank0():
-    import pyttb as ttb
-    d = tempfile.mkdtemp(prefix="c16_")
-    try:
-        path = os.path.join(d, "w.tns")
-        with open(path, "w", newline="") as fh:
-            fh.write("ktensor\r\n2\r\n1 2\r\n0\r\n\r\nmatrix\r\n2\r\n1 0\r\n\r\nmatrix\r\n2\r\n2 0\r\n\r\n\r\n")
-        try:
-            R = ttb.import_data(path)
-        except OverflowError as ex:
-            return f"the CR LF file of a rank-0 Kruskal tensor of shape (1, 2) raises OverflowError: {str(ex)[:40]}"
-        except Exception as ex:
-            return f"the CR LF file of a rank-0 Kruskal tensor raises {type(ex).__name__}"
-        return None if isinstance(R, ttb.ktensor) and R.shape == (1, 2) and R.ncomponents == 0 else "CR LF rank-0 file misread"
-    finally:
-        shutil.rmtree(d, ignore_errors=True)
-
-
-def _w_order0():
-    import numpy as np
-    import pyttb as ttb
-    d = tempfile.mkdtemp(prefix="c16_")
-    try:
-        path = os.path.join(d, "w.tns")
-        bad = []
-        for name, mk in (("tensor()", ttb.tensor), ("sptensor()", ttb.sptensor), ("ktensor()", ttb.ktensor),
-                         ("np.array(3.0)", lambda: np.array(3.0))):
-            obj = mk()
-            ttb.export_data(obj, path)
-            try:
-                R = ttb.import_data(path)
-                if type(R) is not type(obj) or tuple(R.shape) != tuple(obj.shape):
-                    bad.append(name)
-            except Exception as ex:
-                bad.append(f"{name}: {type(ex).__name__}")
-        return ("export then import of order-0 objects fails: " + ", ".join(bad)) if bad else None
-    finally:
-        shutil.rmtree(d, ignore_errors=True)
-
-
-def _w_subs_wrap():
-    import numpy as np
-    import pyttb as ttb
-    d = tempfile.mkdtemp(prefix="c16_")
-    try:
-        path = os.path.join(d, "w.tns")
-        S = ttb.sptensor(np.array([[0, 1], [255, 2]], dtype=np.uint8), np.array([[1.5], [2.5]]), (256, 3))
-        if S.subs.dtype != np.uint8:
-            return None                      # the constructor no longer keeps a narrow subscript type: class gone
-        ttb.export_data(S, path)
-        line = open(path).read().split("\n")[5]
-        if line.split(" ")[0] != "256":
-            return f"stored subscript 255 in a uint8 subscript array is written as {line.split(' ')[0]!r} (1-based: 256)"
-        R = ttb.import_data(path)
-        return None if R.subs.tolist() == [[0, 1], [255, 2]] else "uint8 subscripts not reproduced"
-    except Exception as ex:
-        return f"uint8 subscript 255: {type(ex).__name__}"
-    finally:
-        shutil.rmtree(d, ignore_errors=True)
-
-
-WITNESSES = {"C19-N14": _w_negsub, "C16-N2": _w_order0, "C16-N3": _w_crlf_rank0, "C16-N4": _w_subs_wrap}
+# none open: C16-N1 (20317ef), C16-N2 (b512e35), C16-N3 (a0b5a3f), C16-N4 (dda4ae2) and C19-N14 are repaired in /repo; the model
+# follows the repaired code and the former witness inputs are ordinary cases of gen_cases (rank-0 Kruskal tensors, order-0
+# objects, the CR LF rank-0 file, uint8 subscript 255, the 1-based file read with index_base 2)
+TRIGGERS = {}
+WITNESSES = {}
